@@ -911,3 +911,69 @@ def _block_predecessors(cfg: CFG, nd: Node) -> List[Node]:
         out.append(p)
         cur = p
     return out
+
+
+# ---------------------------------------------------------------------------------- NO-USER-VALUE-MUTATION
+def user_value_mutations(db: ProgramDB, fn: FuncInfo) -> List[Tuple[ast.AST, str]]:
+    """In-place mutation of a value taken out of a binding (`<hashed value>.value`, i.e. a user object or one of its
+    attribute values), directly or after storing it into a local container slot that is mutated in place elsewhere."""
+    tainted: Set[str] = set()
+    defs = local_defs(fn)
+    for name, vals in defs.items():
+        for v in vals:
+            if isinstance(v, ast.Attribute) and v.attr == "value" and not (isinstance(v.value, ast.Name) and v.value.id == "self"):
+                tainted.add(name)
+    bad = []
+    slot_stores: Dict[str, ast.AST] = {}
+    for n in own_nodes(fn.node):
+        if isinstance(n, ast.Assign):
+            for t in n.targets:
+                if isinstance(t, ast.Subscript) and isinstance(n.value, ast.Name) and n.value.id in tainted:
+                    slot_stores[unparse(t)] = n
+    for n in own_nodes(fn.node):
+        if isinstance(n, ast.Call) and isinstance(n.func, ast.Attribute) and n.func.attr in BUILTIN_MUTATORS:
+            r = n.func.value
+            if isinstance(r, ast.Name) and r.id in tainted:
+                # a local re-bound to a fresh container before the mutation is fine only if every definition is fresh
+                fresh_defs = [v for v in defs.get(r.id, []) if isinstance(v, (ast.List, ast.Dict, ast.Set))]
+                if len(fresh_defs) < len(defs.get(r.id, [])):
+                    bad.append((n, f"`{unparse(n)[:60]}` mutates a value taken out of a binding (a user object's value)"))
+            elif unparse(r) in slot_stores:
+                bad.append((n, f"`{unparse(slot_stores[unparse(r)])[:60]}` stores a value taken out of a binding into a slot that "
+                               f"`{unparse(n)[:50]}` then mutates in place: the user's own collection is modified"))
+        elif isinstance(n, ast.AugAssign):
+            if isinstance(n.target, ast.Name) and n.target.id in tainted:
+                bad.append((n, f"`{unparse(n)[:60]}` updates in place a value taken out of a binding"))
+            elif unparse(n.target) in slot_stores:
+                bad.append((n, f"`{unparse(n)[:60]}` updates in place a slot that aliases a value taken out of a binding"))
+    return bad
+
+
+def rule_no_user_value_mutation(db: ProgramDB) -> List[Instance]:
+    out = []
+    n = 0
+    se = db.cls("SymbolicExpression")
+    for c in sorted(se.all_subclasses(), key=lambda k: k.qualname):
+        for m in c.methods.values():
+            uses_values = any(isinstance(x, ast.Attribute) and x.attr == "value" and not (isinstance(x.value, ast.Name) and x.value.id == "self")
+                              for x in own_nodes(m.node))
+            if not uses_values:
+                continue
+            n += 1
+            bad = user_value_mutations(db, m)
+            if bad:
+                for node, why in bad:
+                    out.append(inst("NO-USER-VALUE-MUTATION", VIOLATION, m, f"{m.short}[{unparse(node)[:40]}]", why, line=node.lineno))
+            else:
+                out.append(inst("NO-USER-VALUE-MUTATION", HOLDS, m, m.short,
+                                "takes values out of bindings and mutates none of them in place"))
+    example = ("class X:\n    def f(self, val, acc):\n        chunk = val.value\n        if 1 in acc:\n            acc[1].extend(chunk)\n"
+               "        else:\n            acc[1] = chunk\n        other = val.value\n        other.append(3)\n")
+    db2 = ProgramDB(repo=db.repo, overrides=dict(db.source_overrides, __eqlsa_example__=example))
+    if len(user_value_mutations(db2, db2.fn("__eqlsa_example__:X.f"))) != 2:
+        out.append(inst("NO-USER-VALUE-MUTATION", UNDECIDED, "", "positive-example", "the rule did not fire on its built-in positive example"))
+    return out
+
+
+def rule_coverage_the_only(db: ProgramDB) -> List[Instance]:
+    return [i for i in rule_coverage_after_completion(db) if "The.evaluate" in i.construct]
